@@ -26,7 +26,7 @@ SAN_ENV = {
 # per-property configuration of the generic case runner ------------------------------------------------------
 # cases: (quick, thorough); timeout: seconds per case before the watchdog fires; chunk: cases per worker process
 PROPS = {
-    "C01": dict(variant="asan", cases=(400, 6000), timeout=60, chunk=20, level="exploration", min_nontrivial=50,
+    "C01": dict(variant="asan", cases=(3000, 40000), timeout=60, chunk=20, level="exploration", min_nontrivial=50,
                 rule="case = random grid configuration (family, rule, dims, outputs, depth, selection type, anisotropic weights, limits, transforms, order) + random legal history of 2..10 steps (load / reload / refine with every strategy / update / merge / clear / dynamic construction with partial deliveries); after every value-supplying step evaluateBatch on ALL loaded points and evaluate/evaluateFast on a sample are compared with the supplied values; non-trivial = at least one value-supplying step was checked; distinct = distinct (configuration signature | operation sequence)"),
 }
 
